@@ -17,6 +17,10 @@ Decided (structural, on MIR):
         priority order (the queue is ORDERed BY the code)
   SCAN  scan_complete replaces the queue with (range, Scanned) for exactly the scanned range plus
         FoundNote extensions that end / start at the range's bounds, without forcing rescans
+  SUGGEST the public suggest_scan_ranges asks for every priority from the least one above Scanned;
+        the query keeps `priority >= :min_priority` with that priority's code, highest first
+  FORCE rewind_to_chain_state and queue_rescans re-queue with force_rescans = true (Scanned is
+        sticky otherwise, rule DOM)
 Not decided: that the queue stays a sorted gap-free partition (SpanningTree::insert / into_vec over
 all insertion sequences), pointwise correctness of insert over range relations, termination of
 syncing, update_chain_tip / truncation arithmetic.
@@ -335,8 +339,9 @@ def rule_call(chk, w):
         chk.ok("CALL", "insert, equal ranges: dominance(current, to_insert, Insert::right); Right selects to_insert's "
                "priority, Left / Equal the current one")
     else:
-        chk.fail("CALL", "insert/equal", "the equal-range case of insert does not map the dominance result onto the "
-                 "matching range's priority", f.span.loc())
+        chk.fail("CALL", "insert/equal", "the equal-range case of insert calls dominance with %s (expected current, "
+                 "to_insert, Insert::right(force_rescans)) or does not map the result onto the matching range's priority"
+                 % ([defuse.show(du.origin(x)) for x in dm[0][1].args] if len(dm) == 1 else "no single call"), f.span.loc())
     # gaps become Historic
     f = jn[0]
     b, du = f.body, defuse.DefUse(f.body)
@@ -451,6 +456,82 @@ def rule_scan(chk, w):
             [defuse.show(du.origin(x))[:80] for x in rq[0][1].args] if rq else None), f.span.loc())
 
 
+def rule_suggest(chk, w):
+    """Everything above Scanned must be suggested, or a client that scans what is suggested stops with
+    unscanned blocks: the public suggest_scan_ranges asks for every priority from the least one above
+    Scanned; the query keeps `priority >= :min_priority` with the code of that priority and orders by
+    the code."""
+    adt = w.adts.get(SP)
+    names = [v["name"] for v in adt["variants"]] if adt else []
+    if "Scanned" not in names or names.index("Scanned") + 1 >= len(names):
+        chk.fail("SUGGEST", "order", "ScanPriority has no priority above Scanned")
+        return
+    least = names[names.index("Scanned") + 1]
+    pub = [f for f in w.fns.values() if f.crate.name == "zcash_client_sqlite" and
+           re.search(r"as zcash_client_backend::data_api::WalletRead>::suggest_scan_ranges$", f.p) and
+           "/testing/" not in f.span.file and "::testing::" not in f.p]
+    inner = w.by_p.get(SQ + "suggest_scan_ranges", [])
+    if not pub or len(inner) != 1:
+        chk.fail("SUGGEST", "missing", "suggest_scan_ranges (WalletRead impl / wallet::scanning) not found")
+        return
+    for f in pub:
+        du = defuse.DefUse(f.body)
+        cs = _calls(f.body, r"wallet::scanning::suggest_scan_ranges$")
+        got = [defuse.show(du.origin(t.args[1])) for _bb, t in cs]
+        if got == ["%s::%s{}" % (SP, least)]:
+            chk.ok("SUGGEST", "WalletRead::suggest_scan_ranges asks for every priority from %s, the least one above "
+                   "Scanned" % least, sample=True)
+        else:
+            chk.fail("SUGGEST", "threshold", "WalletRead::suggest_scan_ranges asks for priorities from %s; ranges of "
+                     "priority %s are never suggested" % (got, least), f.span.loc())
+    f = inner[0]
+    src = " ".join(sqlfx_literals(f))
+    du = defuse.DefUse(f.body)
+    pc = [defuse.show(du.origin(t.args[0])) for _bb, t in _calls(f.body, r"scanning::priority_code$")]
+    if re.search(r"WHERE\s+priority\s*>=\s*:min_priority", src) and re.search(r"ORDER BY\s+priority\s+DESC", src) and \
+            pc == ["&arg1"]:
+        chk.ok("SUGGEST", "the query keeps `priority >= :min_priority` (the code of the requested priority), highest "
+               "priority first")
+    else:
+        chk.fail("SUGGEST", "query", "suggest_scan_ranges filters / orders differently (%s; code of %s)" % (src[:120], pc),
+                 f.span.loc())
+
+
+def sqlfx_literals(f):
+    import sqlfx
+    return [l for l in sqlfx.string_literals(zf.fn_source(extract.REPO, f)) if re.search(r"[A-Z]{4,}", l)]
+
+
+def rule_force(chk, w):
+    """Scanned is sticky unless a rescan is forced (rule DOM), so the operations that exist to have
+    already-scanned heights scanned again must force: the rewind's Historic range above the target
+    and queue_rescans."""
+    n = 0
+    for f in sorted(w.fns.values(), key=lambda f: f.p):
+        root = w.fns.get(f.root) if f.is_closure() else f
+        if root is None or root.crate.name != "zcash_client_sqlite" or "::tests::" in root.p:
+            continue
+        which = None
+        if root.p.endswith("wallet::rewind_to_chain_state"):
+            which = "rewind_to_chain_state"
+        elif root.p.endswith("::queue_rescans"):
+            which = "queue_rescans"
+        if which is None:
+            continue
+        du = None
+        for bb, t in _calls(f.body, r"scanning::replace_queue_entries$"):
+            du = du or defuse.DefUse(f.body)
+            n += 1
+            force = defuse.show(du.origin(t.args[3])) if len(t.args) > 3 else "?"
+            if force in ("1", "True", "true"):
+                chk.ok("FORCE", "%s re-queues heights with force_rescans = true" % which, sample=(n == 1))
+            else:
+                chk.fail("FORCE", which, "%s re-queues heights with force_rescans = %s: ranges already Scanned stay "
+                         "Scanned and are never scanned again" % (which, force), t.span.loc())
+    if n < 2:
+        chk.fail("FORCE", "sites", "expected the re-queuing calls of rewind_to_chain_state and queue_rescans, found %d" % n)
+
+
 def main(tier):
     chk = Check("C15", "other", tier)
     chk.explanation = (
@@ -467,10 +548,14 @@ def main(tier):
     chk.rule("CALL", "callers pass the inserted range on the side their Insert names; gaps are Historic", floor=5)
     chk.rule("PRIO", "priority codes are an order-preserving bijection", floor=2)
     chk.rule("SCAN", "scan_complete marks exactly the scanned range", floor=3)
+    chk.rule("SUGGEST", "everything above Scanned is suggested, highest priority first", floor=2)
+    chk.rule("FORCE", "operations that exist to rescan force the replacement", floor=2)
     w = zf.World(extract.facts_dir("all"), ["zcash_client_backend", "zcash_client_sqlite"])
     rule_dom(chk, w)
     rule_ins(chk, w)
     rule_call(chk, w)
     rule_prio(chk, w)
     rule_scan(chk, w)
+    rule_suggest(chk, w)
+    rule_force(chk, w)
     chk.finish()
